@@ -40,8 +40,11 @@ OPS_A = ([("step", e, j, o) for e in ("numpy", "SX", "MX") for j in (0, 1) for o
          # value set 2 = no init_conditions at all: the engine creates the symbols itself
          + [("step", e, 2, o) for e in ("SX", "MX") for o in (0, 1)]
          # the same caller values/symbols again, but other model parameters (sampling time, tau, ...)
-         + [("stepP", "numpy", 0), ("stepP", "SX", 0)])
-OPS_B = [("step", "numpy", j, o) for j in (0, 1) for o in (0, 1)] + [("feedback", o) for o in (0, 1)]
+         + [("stepP", "numpy", 0), ("stepP", "SX", 0)]
+         # the caller overwrites the contents of the retained arrays of value set 0 IN PLACE (buf[...] = new), as a
+         # simulation loop does, before passing the same array objects again
+         + [("inplace0",)])
+OPS_B = [("step", "numpy", j, o) for j in (0, 1) for o in (0, 1)] + [("feedback", o) for o in (0, 1)] + [("inplace0",)]
 
 
 def neg_some(val):
@@ -114,6 +117,7 @@ class Session:
         self.engines = {"SX": env.casadi_engine("SX"), "MX": env.casadi_engine("MX")}
         self.last_cs = None
         self.held = []  # (dict-of-arrays used as feedback input, snapshot)
+        self.n_inplace = 0
 
     def cs_inputs(self, sym, j):
         if (sym, j) not in self.cs_ic:
@@ -173,6 +177,15 @@ class Session:
             self.P = P_save
 
     def _apply(self, op, k, net):
+        if k == "inplace0":
+            # legitimate caller action: new contents in the SAME array objects; the snapshots follow
+            self.n_inplace += 1
+            for el, d in self.np_ic[0].items():
+                for name, arr in d.items():
+                    if name in ("rho", "v"):
+                        arr[...] = arr * (0.8 if name == "rho" else 1.05)
+                        self.np_snap[0][el][name] = arr.copy()
+            return None
         if k == "step":
             _, e, j, o = op
             opts = ALLPOS if o else {}
@@ -242,10 +255,12 @@ def order_of(name, spec):
     return reversed_order(spec) if name.endswith("-reversed") else None
 
 
-def reference(spec, family, op, order=None):
-    key = (spec, family, op, None if order is None else tuple(order))
+def reference(spec, family, op, order=None, n_inplace=0):
+    key = (spec, family, op, None if order is None else tuple(order), n_inplace)
     if key not in _REF:
         s = Session(spec, family, order)
+        for _ in range(n_inplace):
+            s.apply(("inplace0",))
         _REF[key] = s.apply(op)
     return _REF[key]
 
@@ -265,7 +280,7 @@ def run_history(spec, family, hist, st: Stats, order=None):
             problems.append((f"C12/{inv[0]}", f"after operation {i} {op}: {inv[1]}"))
             return problems
         if obs is not None and op[0] in ("step", "stepP"):
-            ref = reference(spec, family, op, order)
+            ref = reference(spec, family, op, order, s.n_inplace if (len(op) > 2 and op[2] == 0) else 0)
             if obs[0] == "np":
                 for kk, v in ref[1].items():
                     a = obs[1][kk]
@@ -288,7 +303,7 @@ def run_history(spec, family, hist, st: Stats, order=None):
 
 OPS_A_CORE = ([("step", "numpy", j, o) for j in (0, 1) for o in (0, 1)] + [("feedback", 0), ("feedback", 1)]
               + [("step", "SX", 0, 0), ("step", "SX", 2, 0), ("step", "SX", 2, 1), ("step", "MX", 2, 1), ("tofun", 0),
-                 ("stepP", "SX", 0)])
+                 ("stepP", "SX", 0), ("inplace0",)])
 
 
 def worker(item):
